@@ -50,6 +50,9 @@ pub struct Opts {
     pub ecl: Option<u8>,
     pub version: Option<u8>,
     pub mask: Option<u8>,
+    /// order in which the setters present are called: index into the 24 permutations of
+    /// (mode, ecl, version, mask); 0 = that order. The final option values are the same for every order.
+    pub order: u8,
 }
 
 impl Opts {
@@ -58,11 +61,10 @@ impl Opts {
             mode: Some(m as u8),
             ecl: Some(e as u8),
             version: Some(v as u8),
-            mask: Some(k as u8),
-        }
+            mask: Some(k as u8), order: 0 }
     }
     pub fn to_json(&self) -> Value {
-        json!({"mode": self.mode, "ecl": self.ecl, "version": self.version, "mask": self.mask})
+        json!({"mode": self.mode, "ecl": self.ecl, "version": self.version, "mask": self.mask, "setter_order": self.order})
     }
     pub fn from_json(v: &Value) -> Option<Self> {
         let g = |k: &str| -> Option<Option<u8>> {
@@ -76,22 +78,49 @@ impl Opts {
             ecl: g("ecl")?,
             version: g("version")?,
             mask: g("mask")?,
+            order: v.get("setter_order").and_then(|x| x.as_u64()).unwrap_or(0) as u8,
         })
     }
     pub fn apply(&self, b: &mut QRBuilder) {
-        if let Some(m) = self.mode {
-            b.mode(MODES[m as usize]);
-        }
-        if let Some(e) = self.ecl {
-            b.ecl(ECLS[e as usize]);
-        }
-        if let Some(v) = self.version {
-            b.version(VERSIONS[v as usize - 1]);
-        }
-        if let Some(k) = self.mask {
-            b.mask(MASKS[k as usize]);
+        for which in permutation(self.order) {
+            match which {
+                0 => {
+                    if let Some(m) = self.mode {
+                        b.mode(MODES[m as usize]);
+                    }
+                }
+                1 => {
+                    if let Some(e) = self.ecl {
+                        b.ecl(ECLS[e as usize]);
+                    }
+                }
+                2 => {
+                    if let Some(v) = self.version {
+                        b.version(VERSIONS[v as usize - 1]);
+                    }
+                }
+                _ => {
+                    if let Some(k) = self.mask {
+                        b.mask(MASKS[k as usize]);
+                    }
+                }
+            }
         }
     }
+}
+
+/// the `i`-th permutation of [0, 1, 2, 3] in lexicographic order (0 = identity)
+pub fn permutation(i: u8) -> [u8; 4] {
+    let mut items = vec![0u8, 1, 2, 3];
+    let mut i = (i % 24) as usize;
+    let mut out = [0u8; 4];
+    let fact = [6usize, 2, 1, 1];
+    for (k, f) in fact.iter().enumerate() {
+        let j = i / f;
+        i %= f;
+        out[k] = items.remove(j);
+    }
+    out
 }
 
 pub enum Outcome {
